@@ -347,6 +347,185 @@ static void run_ntt(Ctx& c, uint64_t k, int dir, int fam, uint64_t seed) {
   if (ar.check_canaries() >= 0) return c.failf("n=%llu transform wrote outside its n*4 lanes", LLU(n));
 }
 
+
+// ================================================================================================ stage trace (hook 2)
+// spqlios_verif_set_ntt_trace installs a callback that the guarded hook in q120_ntt_avx2.c calls after every stage. It is an
+// observation aid: (a) each stage's lazy 64-bit data is compared modulo q with an exact stage-by-stage model that follows the
+// schedule the real code executes (twiddles = low 32 bits of the library's own table entries), so a wrap is localised to the stage
+// where it happens and a wrap that a later wrap would cancel is still seen; (b) the largest lane value seen after each stage is
+// measured, which is the non-trivial rule (some stage reaches >= 2^62) and the fitness of the value-guided search.
+extern "C" {
+typedef void (*spqlios_verif_ntt_trace_f)(int inverse, uint64_t n, uint64_t stage_nn, const uint64_t* begin, const uint64_t* end);
+void spqlios_verif_set_ntt_trace(spqlios_verif_ntt_trace_f f);
+}
+
+struct TraceState {
+  const q120_ntt_precomp* pre = nullptr;
+  const uint64_t* base = nullptr;
+  uint64_t n = 0;
+  std::vector<uint64_t> model;          // 4n residues
+  std::map<uint64_t, uint64_t> stage_max;  // stage_nn -> largest lane value observed after that stage
+  std::string err;
+  uint64_t stages = 0;
+};
+static TraceState g_tr;
+
+static inline uint64_t tw(const q120_ntt_precomp* pre, uint64_t entry, int lane) { return pre->powomega[4 * entry + lane] & 0xFFFFFFFFull; }
+
+static void trace_cb(int inverse, uint64_t n, uint64_t nn, const uint64_t* begin, const uint64_t* end) {
+  TraceState& t = g_tr;
+  if (!t.err.empty()) return;
+  ++t.stages;
+  const uint64_t off = (uint64_t)(begin - t.base) / 4, len = (uint64_t)(end - begin) / 4;
+  uint64_t* m = t.model.data();
+  if (nn == 0) {  // twist stage a_k * w_k over the whole vector; forward: table entries 0..n-1, inverse: after all level tables
+    uint64_t po = 0;
+    if (inverse)
+      for (uint64_t s = 2; s <= n; s *= 2) po += s / 2 - 1;
+    for (uint64_t i = 0; i < len; ++i)
+      for (int l = 0; l < 4; ++l) m[4 * (off + i) + l] = mq::mulm(m[4 * (off + i) + l], tw(t.pre, po + off + i, l), mq::QS[l]);
+  } else {
+    const uint64_t h = nn / 2;
+    uint64_t po = 0;
+    if (!inverse) {
+      po = n;
+      for (uint64_t s = n; s > nn; s /= 2) po += s / 2 - 1;
+    } else {
+      for (uint64_t s = 2; s < nn; s *= 2) po += s / 2 - 1;
+    }
+    for (uint64_t blk = off; blk < off + len; blk += nn)
+      for (uint64_t i = 0; i < h; ++i)
+        for (int l = 0; l < 4; ++l) {
+          const uint64_t q = mq::QS[l];
+          uint64_t& a = m[4 * (blk + i) + l];
+          uint64_t& b = m[4 * (blk + h + i) + l];
+          const uint64_t w = i == 0 ? 1 : tw(t.pre, po + i - 1, l);
+          if (!inverse) {
+            uint64_t s = mq::addm(a, b, q), d = mq::mulm(mq::subm(a, b, q), w, q);
+            a = s; b = d;
+          } else {
+            uint64_t bo = mq::mulm(b, w, q);
+            uint64_t s = mq::addm(a, bo, q), d = mq::subm(a, bo, q);
+            a = s; b = d;
+          }
+        }
+  }
+  uint64_t mx = 0;
+  for (uint64_t i = 0; i < 4 * len; ++i) {
+    const uint64_t v = begin[i];
+    if (v > mx) mx = v;
+    if (t.err.empty() && v % mq::QS[i & 3] != m[4 * off + i]) {
+      char buf[400];
+      const uint64_t q = mq::QS[i & 3], got = v % q, ex = m[4 * off + i];
+      const uint64_t w64 = (uint64_t)((((u128)1) << 64) % q);
+      snprintf(buf, sizeof buf, "after the %s stage (stage %llu of the %s transform, n=%llu) element %llu lane %llu holds %llu = %llu mod q, the exact stage model gives %llu (difference %s +-2^64 mod q)",
+               nn == 0 ? "twist" : ("span-" + std::to_string(nn)).c_str(), LLU(t.stages), inverse ? "inverse" : "forward", LLU(n), LLU(off + i / 4), LLU(i & 3), LLU(v), LLU(got), LLU(ex),
+               ((got + q - ex) % q == w64 || (ex + q - got) % q == w64) ? "is exactly" : "is not");
+      t.err = buf;
+    }
+  }
+  uint64_t& sm = t.stage_max[nn];
+  if (mx > sm) sm = mx;
+}
+
+// runs one traced transform; returns the largest lane value seen after any stage (0 on n=1)
+static uint64_t traced_transform(Ctx& c, NttCtx& nc, uint64_t n, int dir, const uint64_t* x, std::string* stagesum) {
+  Arena ar;
+  Buf D = ar.alloc(n * 32, OVER);
+  uint64_t* d = D.as<uint64_t>();
+  memcpy(d, x, n * 32);
+  g_tr = TraceState();
+  g_tr.pre = dir == 0 ? nc.f : nc.b;
+  g_tr.base = d;
+  g_tr.n = n;
+  g_tr.model.resize(4 * n);
+  for (uint64_t i = 0; i < 4 * n; ++i) g_tr.model[i] = x[i] % mq::QS[i & 3];
+  spqlios_verif_set_ntt_trace(trace_cb);
+  if (dir == 0) q120_ntt_bb_avx2(nc.f, (q120b*)d); else q120_intt_bb_avx2(nc.b, (q120b*)d);
+  spqlios_verif_set_ntt_trace(nullptr);
+  if (!g_tr.err.empty()) { c.failf("%s lanes: %s", dir == 0 ? "q120_ntt_bb_avx2" : "q120_intt_bb_avx2", g_tr.err.c_str()); return 0; }
+  // the stage model must end where the transform ends
+  for (uint64_t i = 0; i < 4 * n; ++i)
+    if (d[i] % mq::QS[i & 3] != g_tr.model[i]) { c.failf("n=%llu: final output differs from the last stage of the model (trace incomplete?)", LLU(n)); return 0; }
+  uint64_t peak = 0;
+  std::string sum;
+  for (auto& kv : g_tr.stage_max) {
+    if (kv.second > peak) peak = kv.second;
+    char b[64];
+    snprintf(b, sizeof b, "%s%llu:%.2f", sum.empty() ? "" : " ", LLU(kv.first), kv.second ? std::log2((double)kv.second) : 0.0);
+    sum += b;
+  }
+  if (stagesum) *stagesum = sum;
+  return peak;
+}
+
+static void peak_classes(Ctx& c, uint64_t peak) {
+  const double b = peak ? std::log2((double)peak) : 0;
+  c.cls(b >= 63.9 ? "peak:>=2^63.9" : b >= 63 ? "peak:>=2^63" : b >= 62 ? "peak:>=2^62" : "peak:<2^62");
+  c.nontrivial = b >= 62;
+  if (c.nontrivial) c.cls("trace:some-stage>=2^62");
+}
+
+static void run_ntt_trace(Ctx& c, uint64_t k, int dir, int fam, uint64_t seed) {
+  if (!oracle_ok(c)) return;
+  const uint64_t n = 1ull << k;
+  NttCtx& nc = ntt_ctx(n);
+  Rng r(seed);
+  std::vector<uint64_t> x(4 * n);
+  mq::fill_lanes(x.data(), n, fam, r);
+  std::string sum;
+  uint64_t peak = traced_transform(c, nc, n, dir, x.data(), &sum);
+  c.cls("tk:" + std::to_string(k));
+  c.cls(dir == 0 ? "trace:q120_ntt_bb_avx2" : "trace:q120_intt_bb_avx2");
+  c.notef("traced %s n=%llu lanes=%s; log2 of the largest lane after each stage (stage span:bits, 0 = twist): %s", dir == 0 ? "ntt" : "intt", LLU(n), mq::lane_fam_name(fam), sum.c_str());
+  if (c.failed()) return;
+  peak_classes(c, peak);
+}
+
+// value-guided search: hill climbing on the lane vector, fitness = largest lane value after stage `target` (or any stage)
+static void run_ntt_search(Ctx& c, uint64_t k, int dir, int64_t tsel, int iters, uint64_t seed) {
+  if (!oracle_ok(c)) return;
+  const uint64_t n = 1ull << k;
+  NttCtx& nc = ntt_ctx(n);
+  Rng r(seed);
+  std::vector<uint64_t> best(4 * n), cand;
+  mq::fill_lanes(best.data(), n, (int)r.below(mq::LF_N), r);
+  // target stage: span 2^tsel (clamped to n), or 0 (twist), or "any" when tsel < 0
+  const bool any = tsel < 0;
+  const uint64_t target = tsel == 0 ? 0 : std::min<uint64_t>(n, 1ull << std::min<int64_t>(tsel, 16));
+  auto fitness = [&](const std::vector<uint64_t>& v, uint64_t* peak) -> uint64_t {
+    uint64_t p = traced_transform(c, nc, n, dir, v.data(), nullptr);
+    if (peak) *peak = p;
+    if (any) return p;
+    auto it = g_tr.stage_max.find(target);
+    return it == g_tr.stage_max.end() ? 0 : it->second;
+  };
+  uint64_t bestpeak = 0, bestfit = fitness(best, &bestpeak);
+  for (int it = 0; it < iters && !c.failed(); ++it) {
+    cand = best;
+    const uint64_t muts = 1 + r.below(n >= 16 ? 8 : 2);
+    for (uint64_t q = 0; q < muts; ++q) {
+      uint64_t pos = r.below(4 * n);
+      switch (r.below(5)) {
+        case 0: cand[pos] = UINT64_MAX; break;
+        case 1: cand[pos] = mq::extremal_word((int)(pos & 3), r); break;
+        case 2: cand[pos] = r.next(); break;
+        case 3: cand[pos] = 0; break;
+        default: { uint64_t e = r.below(n); for (int l = 0; l < 4; ++l) cand[4 * e + l] = mq::extremal_word(l, r); }
+      }
+    }
+    uint64_t pk, f = fitness(cand, &pk);
+    if (f >= bestfit) { bestfit = f; best = cand; }
+    if (pk > bestpeak) bestpeak = pk;
+  }
+  c.cls("sk:" + std::to_string(k));
+  c.cls(dir == 0 ? "search:q120_ntt_bb_avx2" : "search:q120_intt_bb_avx2");
+  c.notef("value-guided search n=%llu %s target stage %s: %d mutations, best lane value after the target stage 2^%.3f, overall peak 2^%.3f", LLU(n), dir == 0 ? "ntt" : "intt",
+          any ? "any" : std::to_string(target).c_str(), iters, bestfit ? std::log2((double)bestfit) : 0.0, bestpeak ? std::log2((double)bestpeak) : 0.0);
+  if (c.failed()) return;
+  peak_classes(c, bestpeak);
+}
+
 std::vector<Sub> vh_subs() {
   std::vector<Sub> subs;
   {
@@ -372,6 +551,20 @@ std::vector<Sub> vh_subs() {
     s.name = "ntt";
     s.fields = {{"k", 0, 16}, {"dir", 0, 1}, {"fam", 0, mq::LF_N - 1}, {"seed", 0, INT64_MAX - 1}};
     s.run = [](const Vals& v, Ctx& c) { run_ntt(c, (uint64_t)v[0], (int)v[1], (int)v[2], (uint64_t)v[3]); };
+    subs.push_back(s);
+  }
+  {
+    Sub s;
+    s.name = "ntt_trace";
+    s.fields = {{"k", 1, 16}, {"dir", 0, 1}, {"fam", 0, mq::LF_N - 1}, {"seed", 0, INT64_MAX - 1}};
+    s.run = [](const Vals& v, Ctx& c) { run_ntt_trace(c, (uint64_t)v[0], (int)v[1], (int)v[2], (uint64_t)v[3]); };
+    subs.push_back(s);
+  }
+  {
+    Sub s;
+    s.name = "ntt_search";
+    s.fields = {{"k", 1, 16}, {"dir", 0, 1}, {"target", -1, 16}, {"iters", 20, 400}, {"seed", 0, INT64_MAX - 1}};
+    s.run = [](const Vals& v, Ctx& c) { run_ntt_search(c, (uint64_t)v[0], (int)v[1], v[2], (int)v[3], (uint64_t)v[4]); };
     subs.push_back(s);
   }
   return subs;
